@@ -374,9 +374,12 @@ K_LAST_SEG = "last_reports_time_of_newer_row_of_multi_segment_file"
 K_GLIMIT = "limit_on_grouped_aggregate_changes_bucket_values"
 K_GLIMIT_SEL = "limit_on_tag_and_time_grouped_aggregate_selects_other_rows"
 K_FILL_STR = "fill_previous_forgets_string_of_single_value_chunk"
+K_DESC_TAG_LOST = "desc_tag_group_time_bucket_value_lost_at_chunk_boundary"
+K_COUNT_NULL = "count_null_instead_of_zero_next_to_other_calls"
+K_GAP_BATCH = "time_bucket_value_moves_to_the_bucket_of_the_previous_value_with_file_and_memtable_rows"
 
 
-def defect_model_kind(ds, st, layout, ans):
+def defect_model_kind(ds, st, layout, ans, n=None):
     """Kind of a mismatching answer if it is what a model of one known defect predicts (exact models first, then the relaxed
     ones that only pin down everything outside the defect), else None.  The models live in c08_model; they are not part of
     the reference semantics."""
@@ -414,6 +417,18 @@ def defect_model_kind(ds, st, layout, ans):
         return K_FILL_STR          # a filled cell is the right string or null; every non-empty bucket is right
     if fprev and st["gbtag"] and fits(M.relaxed_fill_expectation(ds, st)):
         return K_FILL_TAGS
+    if fprev and st["gbtag"] and st["desc"] and selector in ("first", "last") and \
+            fits(M.relaxed_fill_expectation(ds, st, bucket_selector_any=True)):
+        return K_FILL_TAGS + "+" + K_DESC_SEL
+    if agg and st["w"] and len(M.agg_items(st)) > 1 and fits(M.evaluate(ds, st, count_cell_null=True)):
+        return K_COUNT_NULL        # several calls per time bucket: a count() cell without values is null instead of 0
+    if agg and st["w"] and st["desc"] and st["gbtag"] and st["fill"] in (None, "0") and \
+            fits(M.evaluate(ds, st, lossy=True, count_cell_null=True)):
+        return K_DESC_TAG_LOST     # every cell is right or shows the empty-bucket value (a value was lost), nothing else
+    if agg and st["w"] and ((layout == "late" and n == 2) or (layout == "seq_mem" and st["desc"] and n in (1, 2))) and \
+            M.field_null_between_values(ds, st):
+        return K_GAP_BATCH         # classified by its trigger (data partly in a file and partly in the memtable, a small batch
+        #                            in which the aggregated field is null in every row)
     if selector == "last" and not st["w"] and layout != "memory" and fits(M.relaxed_selector_expectation(ds, st, any_row_time=True)):
         return K_LAST_SEG
     return None
@@ -422,12 +437,13 @@ def defect_model_kind(ds, st, layout, ans):
 def meta_trigger_kind(ds, st, minority, major_canon=None, minor_canons=()):
     """limit/offset on grouped queries (only compared across executions): name the known defect whose trigger is present."""
     if M.is_agg(st) and st["w"] and major_canon is not None:
-        if not M.rows_not_in_unlimited_answer(_uncanon(major_canon), ds, st) and \
-                all(M.rows_not_in_unlimited_answer(_uncanon(c), ds, st) for c in minor_canons):
-            return K_GLIMIT
-        if st["gbtag"] and not M.rows_not_in_unlimited_answer(_uncanon(major_canon), ds, st) and \
-                not any(M.rows_not_in_unlimited_answer(_uncanon(c), ds, st) for c in minor_canons):
-            return K_GLIMIT_SEL
+        major_clean = not M.rows_not_in_unlimited_answer(_uncanon(major_canon), ds, st)
+        partly_in_memtable = all(x[0] in ("late", "seq_mem") for x in minority)
+        if major_clean and any(M.rows_not_in_unlimited_answer(_uncanon(c), ds, st) for c in minor_canons) and \
+                (partly_in_memtable or all(M.rows_not_in_unlimited_answer(_uncanon(c), ds, st) for c in minor_canons)):
+            return K_GLIMIT        # some execution returns a row that is no row of the unlimited answer (a bucket misses points)
+        if major_clean and (st["gbtag"] or partly_in_memtable):
+            return K_GLIMIT_SEL    # all rows are rows of the unlimited answer, the limit selected other ones
     if M.is_field_pred(st) and ds.split_point() is not None and \
             all(x[0] in ("late", "late_flushed") for x in minority):
         return K_SPLIT
@@ -628,9 +644,9 @@ def do_run(tier, scratch, servers, t0):
         bykind, rest = {}, []
         cache = {}
         for r in recs:
-            ck = (r[0] in ("late", "late_flushed"), r[6])
+            ck = (r[0], r[3], r[6])
             if ck not in cache:
-                cache[ck] = defect_model_kind(ds, st, r[0], _uncanon(r[6]))
+                cache[ck] = defect_model_kind(ds, st, r[0], _uncanon(r[6]), r[3])
             k = cache[ck]
             if k:
                 bykind.setdefault(k, []).append(r)
